@@ -80,7 +80,9 @@ var c10creationKinds = []string{"New(a)", "New(b)", "New()", "New(n1,WithLevel(I
 var c10withKinds = []string{"WithLevel(Error)", "WithJSONMode()", "WithColorMode(false)", "WithUTCMode()", "WithTimeFormat(2006)", "WithAttrs(wa)", "WithAttrs1(w1,w2)", "With(wk,2)",
 	"WithSkip(1)", "WithSkip(2)", "WithContextKeys(ck)", "WithWriter(w1)", "WithErrorWriter(w2)", "WithValueStringer"}
 var c10setKinds = []string{"SetLevel(Error)", "SetLevel(Info)", "SetLevel(Debug)", "SetJSONMode()", "SetColorMode(false)", "SetColorMode(true)", "SetUTCMode(false)", "SetTimeFormat()", "SetAttrs(sa)", "SetAttrs1(s1)", "Set(sk,3)",
-	"SetSkip(3)", "SetContextKeys(c2)", "SetWriter(w1)", "SetErrorWriter(w2)", "SetValueStringer", "AddWriter(w2)"}
+	"SetSkip(3)", "SetContextKeys(c2)", "SetWriter(w1)", "SetErrorWriter(w2)", "SetValueStringer", "AddWriter(w2)",
+	// operations that are no setters: the logger is installed as the package default; the logger is closed ("reserved for future")
+	"slog.SetDefault(it)", "Close()"}
 var c10globalKinds = []string{"slog.SetLevel(Info)", "slog.New(r2)"}
 
 func (w mWorld) firstAnonChild(t int) int {
@@ -96,7 +98,7 @@ var c10reducedSkip = map[string]bool{"SetLevel(Error)": true, "SetColorMode(true
 	"New(b)": true, "New(n2,WithJSONMode())": true, "WithColorMode(false)": true, "WithTimeFormat(2006)": true, "WithAttrs1(w1,w2)": true, "With(wk,2)": true, "WithErrorWriter(w2)": true,
 	"WithValueStringer": true, "WithUTCMode()": true}
 
-var c10small = map[string]bool{"SetLevel(Info)": true, "New(a)": true, "New(b)": true, "New()": true, "New(<name of first anonymous child>)": true, "WithSkip(1)": true, "WithLevel(Error)": true,
+var c10small = map[string]bool{"slog.SetDefault(it)": true, "Close()": true, "SetLevel(Info)": true, "New(a)": true, "New(b)": true, "New()": true, "New(<name of first anonymous child>)": true, "WithSkip(1)": true, "WithLevel(Error)": true,
 	"SetLevel(Error)": true, "SetAttrs(sa)": true, "SetWriter(w1)": true, "SetJSONMode()": true, "slog.SetLevel(Info)": true}
 
 var c10structure = map[string]bool{"New(a)": true, "New()": true, "New(<name of first anonymous child>)": true, "WithSkip(1)": true, "SetLevel(Error)": true}
@@ -330,6 +332,11 @@ func (w mWorld) modelApply(o c10op) (n mWorld, ret int, alt *mWorld) {
 	case o.Kind == "AddWriter(w2)":
 		n.applySetting(t, "AddWriter(w2)")
 		return n, t, nil
+	case o.Kind == "slog.SetDefault(it)":
+		n.DefaultIdx = t // nothing else changes: not the logger, not the package level, not the other loggers
+		return n, -1, nil
+	case o.Kind == "Close()":
+		return n, -1, nil
 	case strings.HasPrefix(o.Kind, "Set"):
 		n.applySetting(t, strings.TrimPrefix(o.Kind, "Set"))
 		if o.Kind == "SetSkip(3)" {
@@ -475,6 +482,12 @@ func (iw *c10world) apply(o c10op, m mWorld) (ret *slog.Entry, hasRet bool, pan 
 			ret = l.Set("sk", 3)
 		case "SetSkip(3)":
 			l.SetSkip(3)
+			hasRet = false
+		case "slog.SetDefault(it)":
+			slog.SetDefault(l)
+			hasRet = false
+		case "Close()":
+			l.Close()
 			hasRet = false
 		case "SetContextKeys(c2)":
 			ret = l.SetContextKeys("c2")
